@@ -5,6 +5,7 @@ import (
 	"github.com/csgura/fp"
 	zz "github.com/csgura/fp/internal/zzverif"
 	"github.com/csgura/fp/iterator"
+	"github.com/csgura/fp/list"
 )
 
 // Duplicate / Partition / Span hand out two iterators over one source. Whatever order the consumer pulls the two
@@ -64,3 +65,22 @@ func VH_c12_two_sided_interleaved() {
 	}
 }
 
+
+// A memoised list is a value that several goroutines may traverse: every cell is evaluated once (the single-pass
+// source is pulled once per element) and every traversal sees the eager sequence.
+func VH_c12_list_cells_shared_by_two_tasks() {
+	zz.Config("preempt", zz.Bound("preempt.cells", 2, 3))
+	in := zz.SliceInt("in", 2, 0, 0)
+	pulls := 0
+	i := 0
+	it := fp.MakeIterator(func() bool { return i < len(in) }, func() int { pulls++; v := in[i]; i++; return v })
+	l := list.Collect(it)
+	var got [2][]int
+	for t := 0; t < 2; t++ {
+		t := t
+		zz.Spawn(func() { got[t] = l.ToSeq() })
+	}
+	zz.Quiesce()
+	zz.Assert(sliceEq(got[0], in) && sliceEq(got[1], in), "a memoised list traversed by two tasks: both see the eager sequence")
+	zz.Assert(pulls == len(in), "a memoised list traversed by two tasks: every cell is evaluated once")
+}
